@@ -52,7 +52,10 @@ TStep ==
      LET e  == Nodes[n]
          ev == <<e.k, e.a, e.b>>
          f  == Eff(ev)
-         harnessOk == f.en /\ e.ts = f.ts /\ e.note = ""
+         \* "code:..." = the real get_faultlog() left the read plan (returned early, asked for another index, ran on):
+         \* that is the code's doing, judged by the clauses on the views it leaves - never a harness fault
+         codeNote  == e.note \in {"code:ended-early", "code:other-idx", "code:ran-late"}
+         harnessOk == f.en /\ (codeNote \/ (e.ts = f.ts /\ e.note = ""))
      IN
      /\ tid' = n
      /\ EnvStep(ev, f)
